@@ -25,7 +25,8 @@ MC_IntLits_T == {0, 7, 2147483647}
 MC_StrLits  == {"p", "q r"}
 MC_StrLits_T == {"p", "q r", "", "SELECT * from"}
 MC_TrickyStrs   == {"true", "False", "desc", "and", "left", "null", "=", ",", "(", ";", "*", ".", "!=", "7", "", "a --b", "/* x",
-                     "C:\\\\", "\\\\", "it\\'s"}    \* contents ending in an escaped backslash (the quote after it closes the literal); an escaped quote
+                     "C:\\\\", "\\\\", "it\\'s",
+                     "C:\\Users", "x\\0", "a\\u", "p\\x4"}    \* contents ending in an escaped backslash (the quote after it closes the literal); an escaped quote
 MC_TrickyStrs_S == {"true", "="}
 MC_QuotedIdents   == {"select", "Desc", "true", "a b", "q <U+1F600>"}
 MC_QuotedIdents_S == {"select"}
